@@ -3,6 +3,7 @@ package c44_test
 // C44: management-server fallback follows gRFC A71 (1..3 servers).
 
 import (
+	"os"
 	"sort"
 	"testing"
 
@@ -16,13 +17,19 @@ func gen(rt *rapid.T) xdsrig.Plan {
 		MaxServers: 3, MinOps: 4, MaxOps: vk.Pick(24, 100),
 		WWatch: 16, WUnwatch: 7, WResp: 26, WBreak: 12, WGrant: 22, WRelease: 4, WAdvance: 4, WRestart: 2, WFailover: 8, WRevert: 7,
 		UnknownPct: 0, HoldPct: 5, BadPct: 20, RefusePct: 40, IgnoreDel: false,
+		MaxAuths: 3, AuthPct: 75,
 	}
 	p := xdsrig.Gen(rt, c)
+	na := 1 + len(p.Auths)
 	if rapid.IntRange(0, 9).Draw(rt, "prefix") < 8 {
-		pre := []xdsrig.Op{{K: "watch", T: rapid.IntRange(0, 1).Draw(rt, "pt"), N: xdsrig.GenName(rt)}}
+		pre := []xdsrig.Op{{K: "watch", T: rapid.IntRange(0, 1).Draw(rt, "pt"), N: xdsrig.GenName(rt), A: rapid.IntRange(0, na-1).Draw(rt, "pa")}}
+		if na > 1 && rapid.Bool().Draw(rt, "second_authority") {
+			// a second authority is in use from the start (its servers may overlap)
+			pre = append(pre, xdsrig.Op{K: "watch", T: rapid.IntRange(0, 1).Draw(rt, "pt2"), N: xdsrig.GenName(rt), A: rapid.IntRange(0, na-1).Draw(rt, "pa2")})
+		}
 		// half of those start with an unreachable primary (-> fallback, if >= 2 servers)
 		if rapid.Bool().Draw(rt, "primary_down") {
-			pre = append(pre, xdsrig.Op{K: "grant", Accept: false})
+			pre = append(pre, xdsrig.Op{K: "grant", S: rapid.IntRange(0, 2).Draw(rt, "ps"), Accept: false})
 		}
 		p.Ops = append(pre, p.Ops...)
 	}
@@ -41,6 +48,9 @@ func run(t *testing.T, p xdsrig.Plan) vk.Result {
 	sort.Strings(res.Classes)
 	if rep.OffAspect != "" {
 		res.Classes = append(res.Classes, "stopped_offaspect_divergence")
+		if os.Getenv("VERIF_C44_DEBUG_OFFASPECT") != "" {
+			return vk.Bad("DEBUG offaspect: %s", rep.OffAspect)
+		}
 		return res
 	}
 	res.NonTrivial = rep.Stats.Fallbacks >= 1 && rep.Stats.Reverts >= 1
